@@ -625,11 +625,11 @@ def padArray (v : Vol) (f : I3 → I3) (o : PadOpts) : Except ErrKind ((I3 → L
       .ok (fun j ch => if v.geom.inRange (f j) then v.arr (f j) ch else v.arr (v.geom.clamp (f j)) ch, v.isInt)
     | _ =>
       if perChannel then
-        -- one padding value per channel index; the result array is allocated as float64
+        -- one padding value per channel index; the result array is allocated with the dtype of the input
         let table := (chanIndices v.cshape).map fun c => (c, (statOf mode (v.channelValues c)).map (castTo v.isInt))
         if table.any (fun e => e.2.isNone) then .error .value else
         .ok (fun j ch => if v.geom.inRange (f j) then v.arr (f j) ch else
-              tableGet table ch (v.arr (f j) ch), false)
+              tableGet table ch (v.arr (f j) ch), v.isInt)
       else
         match statOf mode v.values with
         | none => .error .value
